@@ -13,6 +13,7 @@
 #include <cstring>
 #include <cstdarg>
 #include <cmath>
+#include <cfenv>
 #include <string>
 #include <vector>
 #include <thread>
@@ -361,6 +362,9 @@ inline uint64_t fnv1a(const void *p, size_t n, uint64_t h = 1469598103934665603U
 // The driver's main() is renamed; the real entry point runs it on the initial thread or, with VH_ON_THREAD set (decided by
 // the check per job), on a freshly created thread: nothing the properties state depends on which thread calls the library.
 namespace vh { inline int run_entry(int (*f)(int, char **), int argc, char **argv) {
+    // VH_FPROUND=upward|downward|towardzero: the application has chosen another floating-point rounding direction (threads
+    // created afterwards inherit it). The unchanged library is insensitive to it; so must be what the properties state.
+    if (const char *fr = getenv("VH_FPROUND")) { std::string m = fr; fesetround(m == "upward" ? FE_UPWARD : m == "downward" ? FE_DOWNWARD : m == "towardzero" ? FE_TOWARDZERO : FE_TONEAREST); }
     if (!getenv("VH_ON_THREAD")) return f(argc, argv);
     int rc = 0; std::thread t([&] { rc = f(argc, argv); }); t.join(); return rc; } }
 #define VH_MAIN_GLOBALS namespace vh { Out out; } \
